@@ -275,4 +275,8 @@ def run(ctx):
     run.rule(R7, "a cancel releases only what its own transaction holds: a coin that another pending transaction has reserved cannot be reserved a second time (the rollback turns every Locked record of the entry into Unspent, and the record's single tx_log_entry link would point at the later entry)", floor=2)
     from .shared import reservation_recheck
     reservation_recheck(ctx, R7)
+    R8 = "C05.R8"
+    run.rule(R8, "a transaction that is on chain is refused: the refresh a cancel starts from confirms a mined send through its kernel whenever no unconfirmed output still refers to it (a send whose change was re-spent at zero confirmations is confirmed by nothing else) - otherwise the entry stays unconfirmed and the cancel goes through", floor=4)
+    from .C04 import kernel_step_scope
+    kernel_step_scope(ctx, R8)
     run.not_decided += ["'exactly what they were before' as an equality of balances (numeric, over histories)"]
